@@ -248,8 +248,10 @@ def run_engine_careful(binary, sub, seed, n, prop, label):
     per = (n + NCPU - 1) // NCPU
     os.makedirs(REPLAYS, exist_ok=True)
 
+    base = 1_000_000_000  # disjoint from the run indices of the plain native phase
+
     def one(k):
-        a, b = k * per, min((k + 1) * per, n)
+        a, b = base + k * per, base + min((k + 1) * per, n)
         return run_capture([binary] + sub + ["run", "--careful", "--seed", str(seed), "--from", str(a), "--to", str(b), "--threads", "1", "--out", REPLAYS])
     all_stats, violations = [], []
     with ThreadPoolExecutor(max_workers=NCPU) as ex:
@@ -259,7 +261,7 @@ def run_engine_careful(binary, sub, seed, n, prop, label):
                 raise HarnessError("%s careful: harness error\n%s" % (label, err[-2000:]))
             if rc not in (0, 1) or st is None:
                 # died anyway (e.g. use after free): fall back to the plain runner, which bisects
-                return run_engine_native(binary, sub, seed, n, prop, label)
+                return run_engine_native(binary, sub, seed, n, prop, label, threads=1, base=base, extra=["--careful"])
             all_stats.append(st)
             violations += viols
     merged = dict(all_stats[0])
@@ -294,30 +296,31 @@ def bisect_crash(make_cmd, lo, hi, cwd=None, env=None):
 
 # ---- helpers shared by the Rust engines built on simcore::runner ------------------------------------
 
-def run_engine_native(binary, sub, seed, n, prop, label, threads=None):
+def run_engine_native(binary, sub, seed, n, prop, label, threads=None, base=0, extra=None):
     """Runs `binary <sub...> run` over run indices [0, n). Returns (stats|None, [violation lines]).
     A process that dies (abort in an extern "C" frame, SIGSEGV from a real double free, ...) is bisected
     down to the first run that kills a fresh process; that trace becomes the replay file."""
     threads = threads or NCPU
+    extra = extra or []
     os.makedirs(REPLAYS, exist_ok=True)
-    args = [binary] + sub + ["run", "--seed", str(seed), "--from", "0", "--to", str(n), "--threads", str(threads), "--out", REPLAYS]
+    args = [binary] + sub + ["run"] + extra + ["--seed", str(seed), "--from", str(base), "--to", str(base + n), "--threads", str(threads), "--out", REPLAYS]
     rc, out, err = run_capture(args)
     if rc == 2:
         raise HarnessError("%s: harness error\n%s\n%s" % (label, out[-2000:], err[-2000:]))
     stats, viols = parse_stats(out)
     if rc in (0, 1) and stats is not None:
         return stats, viols
-    mk = lambda a, c: [binary] + sub + ["run", "--seed", str(seed), "--from", str(a), "--to", str(c), "--threads", "1", "--out", "-"]
-    first = bisect_crash(mk, 0, n)
+    mk = lambda a, c: [binary] + sub + ["run"] + extra + ["--seed", str(seed), "--from", str(a), "--to", str(c), "--threads", "1", "--out", "-"]
+    first = bisect_crash(mk, base, base + n)
     if first is None:
         # cumulative heap corruption: no single trace kills a fresh process. Shrink to the shortest prefix
         # of the run range that still does, and report that range as the replay.
-        hi = shortest_crashing_prefix(mk, 0, n)
+        hi = shortest_crashing_prefix(mk, base, base + n)
         if hi is None:
             raise HarnessError("%s died (rc=%s) but not even the whole range reproduces it single-threaded\n%s" % (label, rc, err[-3000:]))
         p = save_replay("%s-%s-crash-range-%d-%d.trace" % (prop, label, seed, hi),
-                        "# range-replay engine=%s sub=%s seed=%d from=0 to=%d\n# property %s\n# oracle CRASH (the process dies while executing runs [0,%d) in one thread; no single run isolates it: heap corruption accumulates)\n" % (label, " ".join(sub), seed, hi, prop, hi))
-        return None, ["VIOLATION property=%s replay=%s oracle=CRASH engine=%s seed=%d runs=0..%d" % (prop, p, label, seed, hi)]
+                        "# range-replay engine=%s sub=%s seed=%d from=%d to=%d\n# property %s\n# oracle CRASH (the process dies while executing runs [%d,%d) in one thread; no single run isolates it: heap corruption accumulates)\n" % (label, " ".join(sub), seed, base, hi, prop, base, hi))
+        return None, ["VIOLATION property=%s replay=%s oracle=CRASH engine=%s seed=%d runs=%d..%d" % (prop, p, label, seed, base, hi)]
     _, tr, _ = run_capture([binary] + sub + ["gen", "--seed", str(seed), "--run", str(first)])
     p = save_replay("%s-%s-crash-%d-%d.trace" % (prop, label, seed, first), tr + "# property %s\n# oracle CRASH (the process died while executing this trace)\n" % prop)
     return None, ["VIOLATION property=%s replay=%s oracle=CRASH engine=%s seed=%d run=%d" % (prop, p, label, seed, first)]
@@ -333,7 +336,10 @@ def run_engine_miri(package, sub, seed, shapes, procs, prop, label, repo=None):
     env.pop("MIRIFLAGS", None)
 
     def one(k):
-        a = sub + ["run", "--seed", str(seed), "--from", str(k * 10_000_000), "--to", str((k + 1) * 10_000_000), "--distinct-shapes", str(per), "--out", "-"]
+        # run indices of the Miri phase are disjoint from the native (0..) and careful (1e9..) phases, so the
+        # distinct-case counts of the phases can be added
+        lo = 2_000_000_000 + k * 10_000_000
+        a = sub + ["run", "--seed", str(seed), "--from", str(lo), "--to", str(lo + 10_000_000), "--distinct-shapes", str(per), "--out", "-"]
         return run_capture(cmd + a, cwd=cwd, env=env)
     results = [one(0)]  # also builds, so the fan-out below does not race on the target dir
     if procs > 1:
@@ -351,7 +357,7 @@ def run_engine_miri(package, sub, seed, shapes, procs, prop, label, repo=None):
                 # find which trace: re-run sequentially is expensive; keep Miri's report as the replay artefact,
                 # together with the exact command that reproduces it
                 p = save_replay("%s-%s-miri-ub-%d-%d.txt" % (prop, label, seed, k),
-                                "# Miri reported undefined behaviour / a leak.\n# reproduce: (cd %s && %s %s)\n%s" % (cwd, " ".join(cmd), " ".join(sub + ["run", "--seed", str(seed), "--from", str(k * 10_000_000), "--to", str((k + 1) * 10_000_000), "--distinct-shapes", str(per), "--out", "-"]), err[-12000:]))
+                                "# Miri reported undefined behaviour / a leak.\n# reproduce: (cd %s && %s %s)\n%s" % (cwd, " ".join(cmd), " ".join(sub + ["run", "--seed", str(seed), "--from", str(2_000_000_000 + k * 10_000_000), "--to", str(2_000_000_000 + (k + 1) * 10_000_000), "--distinct-shapes", str(per), "--out", "-"]), err[-12000:]))
                 violations.append("VIOLATION property=%s replay=%s oracle=MIRI-UB engine=%s seed=%d part=%d" % (prop, p, label, seed, k))
             else:
                 raise HarnessError("miri run of %s failed (rc=%s)\n%s" % (label, rc, err[-4000:]))
